@@ -1069,6 +1069,18 @@ func gridLayout(context *layoutContext, box_ Box, bottomSpace pr.Float, skipStac
 		implicitY1 = utils.MinInt(y, implicitY1)
 		implicitY2 = utils.MaxInt(y+height, implicitY2)
 	}
+	// Rows are added to the implicit grid while the items are placed: the grid has
+	// the rows [implicitY1, upTo) after ensureRows(upTo).
+	addedRows := 0
+	ensureRows := func(upTo int) {
+		if upTo > implicitY2 {
+			implicitY2 = upTo
+		}
+		for len(gridAreas)+addedRows < implicitY2 {
+			rows = append(rows, autoRows.Next(), pr.GridNames{})
+			addedRows++
+		}
+	}
 	cursorX, cursorY := implicitX1, implicitY1
 	if utils.IsIn(flow, "dense") {
 		for _, child := range remainingGridItems {
@@ -1112,13 +1124,7 @@ func gridLayout(context *layoutContext, box_ Box, bottomSpace pr.Float, skipStac
 						break
 					}
 				}
-				yDiff := y + height - implicitY2
-				if yDiff > 0 {
-					for c := 0; c < yDiff; c++ {
-						rows = append(rows, autoRows.Next(), pr.GridNames{})
-					}
-					implicitY2 = y + height
-				}
+				ensureRows(y + height)
 				// 3. Set the item’s row-start line.
 				setPosition(child, rect{x, y, width, height})
 			} else {
@@ -1158,13 +1164,7 @@ func gridLayout(context *layoutContext, box_ Box, bottomSpace pr.Float, skipStac
 							// Free place found.
 							// 3. Set the item’s row-/column-start lines.
 							setPosition(child, rect{x, y, width, height})
-							yDiff := cursorY + height - 1 - implicitY2
-							if yDiff > 0 {
-								for c := 0; c < yDiff; c++ {
-									rows = append(rows, autoRows.Next(), pr.GridNames{})
-								}
-								implicitY2 = cursorY + height - 1
-							}
+							ensureRows(y + height)
 							hasBroken = true
 							break
 						}
@@ -1173,13 +1173,7 @@ func gridLayout(context *layoutContext, box_ Box, bottomSpace pr.Float, skipStac
 						// No room found.
 						// 2. Return to the previous step.
 						cursorY += 1
-						yDiff := cursorY + 1 - implicitY2
-						if yDiff > 0 {
-							for c := 0; c < yDiff; c++ {
-								rows = append(rows, autoRows.Next(), pr.GridNames{})
-							}
-							implicitY2 = cursorY
-						}
+						ensureRows(cursorY + 1)
 						cursorX = implicitX1
 						continue
 					}
@@ -1231,13 +1225,8 @@ func gridLayout(context *layoutContext, box_ Box, bottomSpace pr.Float, skipStac
 						break
 					}
 				}
-				yDiff := y + height - implicitY2
-				if yDiff > 0 {
-					for c := 0; c < yDiff; c++ {
-						rows = append(rows, autoRows.Next(), pr.GridNames{})
-					}
-					implicitY2 = y + height
-				} // 3. Set the item’s row-start line.
+				ensureRows(y + height)
+				// 3. Set the item’s row-start line.
 				setPosition(child, rect{x, y, width, height})
 			} else {
 				for {
@@ -1276,6 +1265,7 @@ func gridLayout(context *layoutContext, box_ Box, bottomSpace pr.Float, skipStac
 							// Free place found.
 							// 2. Set the item’s row-/column-start lines.
 							setPosition(child, rect{x, y, width, height})
+							ensureRows(y + height)
 							hasBroken = true
 							break
 						}
@@ -1284,13 +1274,7 @@ func gridLayout(context *layoutContext, box_ Box, bottomSpace pr.Float, skipStac
 						// No room found.
 						// 2. Return to the previous step.
 						cursorY += 1
-						yDiff := cursorY + 1 - implicitY2
-						if yDiff > 0 {
-							for c := 0; c < yDiff; c++ {
-								rows = append(rows, autoRows.Next(), pr.GridNames{})
-							}
-							implicitY2 = cursorY
-						}
+						ensureRows(cursorY + 1)
 						cursorX = implicitX1
 						continue
 					}
@@ -1317,9 +1301,7 @@ func gridLayout(context *layoutContext, box_ Box, bottomSpace pr.Float, skipStac
 	for c := 0; c < -implicitY1; c++ {
 		rows = append([]pr.GridSpec{pr.GridNames{}, autoRowsBack.Next()}, rows...)
 	}
-	for c := len(gridAreas); c < implicitY2; c++ {
-		rows = append(rows, autoRows.Next(), pr.GridNames{})
-	}
+	ensureRows(implicitY2)
 
 	// 2. Find the size of the grid container.
 
